@@ -119,8 +119,12 @@ func printStmt(sb *strings.Builder, s Stmt, st Style) {
 		}
 		sb.WriteString(")" + st.close())
 		if len(n.Slots) > 0 {
-			for _, sl := range n.Slots {
-				sb.WriteString(n.Gap)
+			for si, sl := range n.Slots {
+				if si == 0 {
+					sb.WriteString(n.GapFirst)
+				} else {
+					sb.WriteString(n.Gap)
+				}
 				if sl.Name == "" {
 					sb.WriteString("@slot")
 				} else {
